@@ -78,8 +78,14 @@ fn materialise(lab: &Lab, inj: &Inj) -> Option<(SocketAddr, Vec<u8>)> {
     }
 }
 
-fn is_verbatim(lab: &Lab, bytes: &[u8]) -> bool {
-    (0..crate::props::lab::KINDS).any(|k| lab.genuine(k) == bytes)
+/// The datagram as the node's parser sees it is `bytes` followed by the stale bytes of the receive buffer. It counts
+/// as a verbatim genuine datagram when it equals one, or when it is a prefix of one and the stale bytes behind it
+/// happen to be exactly the missing rest (a cut in front of trailing bytes that equal the stale pattern).
+fn is_verbatim(lab: &Lab, bytes: &[u8], stale: &[u8]) -> bool {
+    (0..crate::props::lab::KINDS).any(|k| {
+        let g = lab.genuine(k);
+        g == bytes || (!bytes.is_empty() && g.len() > bytes.len() && g.len() <= stale.len() && g[..bytes.len()] == *bytes && g[bytes.len()..] == stale[bytes.len()..g.len()])
+    })
 }
 
 fn diff_kind(before: &str, after: &str) -> &'static str {
@@ -132,7 +138,7 @@ pub fn run_case(ctx: &Ctx, c: &Case) -> Vec<Viol> {
         }
         // verbatim genuine datagrams (replays, possibly of another exchange or from the wrong party) may change state
         // legitimately: they are injected for crash-freedom only and relax the closing check of the batch
-        let verbatim = is_verbatim(&lab, &bytes);
+        let verbatim = is_verbatim(&lab, &bytes, &scrub);
         if verbatim {
             had_verbatim = true;
             ctx.class("datagram:verbatim-genuine(crash-freedom-only)");
